@@ -215,7 +215,7 @@ func New(opts Options) (*Vaxis, error) {
 	vx.chClipboard = make(chan string)
 	vx.chSigWinSz = make(chan os.Signal, 1)
 	vx.chSigKill = make(chan os.Signal, 1)
-	vx.chCursorPos = make(chan [2]int)
+	vx.chCursorPos = make(chan [2]int, 1)
 	vx.chQuit = make(chan bool)
 	vx.chSizeDone = make(chan bool, 1)
 	vx.charCache = make(map[string]int, 256)
@@ -832,9 +832,14 @@ func (vx *Vaxis) handleSequence(seq ansi.Sequence) {
 					log.Error("not enough DSRCPR params")
 					return
 				}
-				vx.chCursorPos <- [2]int{
+				// Never block the input loop: the requester may
+				// have given up in the meantime
+				select {
+				case vx.chCursorPos <- [2]int{
 					seq.Parameters[0][0],
 					seq.Parameters[1][0],
+				}:
+				default:
 				}
 				return
 			}
@@ -965,7 +970,12 @@ func (vx *Vaxis) handleSequence(seq ansi.Sequence) {
 					vx.PostEventBlocking(textAreaChar{})
 					return
 				}
-				vx.chSizeDone <- true
+				// Nobody waits for an unsolicited report, don't
+				// block the input loop on it
+				select {
+				case vx.chSizeDone <- true:
+				default:
+				}
 			case 48:
 				// CSI <type> ; <height> ; <width> ; <height_pix> ; <width_pix> t
 				switch len(seq.Parameters) {
@@ -1067,21 +1077,21 @@ func (vx *Vaxis) handleSequence(seq ansi.Sequence) {
 			// content. In this case, we don't want to fill the channel buffer
 			// as no one will clear it.
 			if vx.CanReportColor() {
-				vx.chColor <- string(seq.Payload)
+				sendReply(vx.chColor, string(seq.Payload))
 			}
 			vx.PostEventBlocking(capabilityOsc4{})
 		}
 		if strings.HasPrefix(string(seq.Payload), "10") {
 			// Similar to OSC 4
 			if vx.CanReportForegroundColor() {
-				vx.chFg <- string(seq.Payload)
+				sendReply(vx.chFg, string(seq.Payload))
 			}
 			vx.PostEventBlocking(capabilityOsc10{})
 		}
 		if strings.HasPrefix(string(seq.Payload), "11") {
 			// Similar to OSC 4
 			if vx.CanReportBackgroundColor() {
-				vx.chBg <- string(seq.Payload)
+				sendReply(vx.chBg, string(seq.Payload))
 			}
 			vx.PostEventBlocking(capabilityOsc11{})
 		}
@@ -1114,6 +1124,31 @@ func (vx *Vaxis) handleSequence(seq ansi.Sequence) {
 	}
 }
 
+// sendReply hands a reply to whoever asked for it without ever blocking the
+// input loop: an unsolicited or repeated reply replaces the one nobody
+// collected
+func sendReply(ch chan string, reply string) {
+	for {
+		select {
+		case ch <- reply:
+			return
+		default:
+		}
+		select {
+		case <-ch:
+		default:
+		}
+	}
+}
+
+// discardReply drops a reply which arrived before the query was made
+func discardReply(ch chan string) {
+	select {
+	case <-ch:
+	default:
+	}
+}
+
 // QueryColor queries the host terminal for an indexed color and returns
 // it as an instance of an RGB vaxis.Color. If the host terminal doesn't
 // support this, Color(0) is returned instead. Make sure not to run this
@@ -1130,6 +1165,7 @@ func (vx *Vaxis) QueryColor(c Color) Color {
 	if len(p) != 1 {
 		return Color(0)
 	}
+	discardReply(vx.chColor)
 	vx.tw.WriteStringLocked(tparm(osc4, p[0]))
 	resp := <-vx.chColor
 	var r, g, b int
@@ -1154,6 +1190,7 @@ func (vx *Vaxis) QueryForeground() Color {
 	if !vx.CanReportForegroundColor() {
 		return Color(0)
 	}
+	discardReply(vx.chFg)
 	vx.tw.WriteStringLocked(osc10)
 	resp := <-vx.chFg
 	var r, g, b int
@@ -1174,6 +1211,7 @@ func (vx *Vaxis) QueryBackground() Color {
 	if !vx.CanReportBackgroundColor() {
 		return Color(0)
 	}
+	discardReply(vx.chBg)
 	vx.tw.WriteStringLocked(osc11)
 	resp := <-vx.chBg
 	var r, g, b int
@@ -1515,6 +1553,11 @@ func (vx *Vaxis) showCursor() string {
 // -1,-1 if the query times out or fails
 func (vx *Vaxis) CursorPosition() (row int, col int) {
 	// DSRCPR - reports cursor position
+	// Drop a reply which came too late for an earlier request
+	select {
+	case <-vx.chCursorPos:
+	default:
+	}
 	atomicStore(&vx.reqCursorPos, true)
 	_, _ = io.WriteString(vx.console, dsrcpr)
 	timeout := time.NewTimer(50 * time.Millisecond)
